@@ -49,8 +49,9 @@ type FSCall struct {
 	At    time.Time
 	Bytes int
 	TID   int
-	FD    int    // descriptor identity (open order), 0 if not descriptor-based
-	Data  string // bytes handed to a write call (whole argument, also for failed / short writes)
+	FD    int       // descriptor identity (open order), 0 if not descriptor-based
+	Data  string    // bytes handed to a write call (whole argument, also for failed / short writes)
+	MTime time.Time // remove: the modification time the removed entry had
 }
 
 // File is an open descriptor.
@@ -396,7 +397,7 @@ func (f *FS) Remove(name string) error {
 	}
 	n.Removed = true
 	delete(f.Nodes, p)
-	f.log(FSCall{Op: "remove", Path: p})
+	f.log(FSCall{Op: "remove", Path: p, MTime: n.MTime})
 	return nil
 }
 
